@@ -123,6 +123,8 @@ structure NSite where
   idx : Nat
   /-- fingerprint (FNV-1a mod 1000000007) of the printed source of the two closures -/
   sig : Nat
+  /-- text of the History object the site appends to (`s.History`, `a.History`, …) -/
+  recv : Txt
   lit : Bool
   doW : List NW
   undoW : List NW
@@ -193,5 +195,19 @@ def orderRespects (commit rollback : List Txt) (pairs : List ((Txt × Txt) × (T
     match idxOf p.1.1 commit, idxOf p.2.1 commit, idxOf p.1.2 rollback, idxOf p.2.2 rollback with
     | some ca, some cb, some ra, some rb => ca < cb && rb < ra
     | _, _, _, _ => false)
+
+/-- one call of a `utils.History` method in the node: enclosing function, receiver, method, argument -/
+structure NCall where
+  fn : Txt
+  recv : Txt
+  method : Txt
+  arg : Txt
+  deriving DecidableEq, Repr
+
+/-- fields whose undo writes are recorded on more than one History object (their relative order
+    at rollback is decided by the caller of the histories' `RollbackTo`, not by one history) -/
+def nsharedFields (sites : List NSite) : List Txt :=
+  let pairs := sites.flatMap (fun s => s.undoW.map (fun u => (u.field, s.recv)))
+  ((pairs.map (·.1)).eraseDups).filter (fun f => ((pairs.filter (fun p => p.1 == f)).map (·.2)).eraseDups.length > 1)
 
 end ElaVerif.Sites
